@@ -23,19 +23,26 @@
 //	A2 for ALL pairs (a,b) of one column configuration: sign(bytes.Compare(key a, key b)) == sign(a.Compare(b)) == -sign(b.Compare(a))
 //	   (TypedValue.Compare of embedded/sql), NULL first, Compare == 0 => identical bytes.
 //	A3 for ALL pairs of 2-column composite keys (built with sql.MapKey as doUpsert does) of ALL ordered pairs of column
-//	   configurations: byte order == lexicographic order by column; the composite decodes back column by column. Mismatches that
+//	   configurations (fixed-width types and every VARCHAR/BLOB length >= 3): byte order == lexicographic order by column; the composite decodes back column by column. Mismatches that
 //	   are the direct consequence of a column-level violation (reported once there) are only counted.
 //	B  TxHeader.Bytes/ReadFrom and TxHeaderToProto/FromProto (+ wire) over ID x Ts x BlTxID x 27 hash patterns x version {0,1} x
 //	   NEntries boundaries x tx-metadata alphabet {nil, empty, extra len 0/1/256, truncated-tx-id 0/1/max, both}; TxMetadata alone;
 //	   KVMetadata (all 2^3 attribute subsets x 8 expiry boundaries) to/from proto.
 //	C  SQL values through pkg/api/schema in both directions (+ wire).
-//	D  every list of 1..3 entries over {value: empty, 1 byte, max} x {kv metadata subsets} x tx metadata x {embedded values} x
-//	   {header version}: commit on a real store, ExportTx, ReplicateTx into a second store, compare headers, entries, values,
+//	D  every list of 1..3 entries over {value: empty, 1 byte, max} x {kv metadata: quick 5 of the subsets, thorough all 2^3 x 3 expiry
+//	   times} x tx metadata (quick 5, thorough 9) x {embedded values} x {header version 1; version 0 for the shapes it can hold
+//	   plus 1-entry probes of the refusal}: commit on a real store, ExportTx, ReplicateTx into a second store, compare headers, entries, values,
 //	   re-export byte-identical, TxToProto/TxFromProto.
 //	E  documents: DocumentID hex codec; insert boundary documents into a real document engine and read them back (by _id, by the
 //	   indexed field, through AuditDocument).
 //	F  every boundary value stored in an indexed column of a real SQL table and read back by primary key; A4: implicit
 //	   conversions inside the codecs (INTEGER in a FLOAT column, textual UUID) encode like the converted value.
+//
+// Not compared (not stated by the property): any order for NaN; timestamps before the engine's own normalisation (sub-microsecond,
+// non-UTC); TruncatedTxID == 0 through the proto message (transaction ids start at 1, the message uses 0 for "absent"); the value of
+// expirable entries (ReadValue consults the wall clock; length and digest are compared instead); NEntries beyond the width of the
+// header version's field; decoding into a reused (dirty) TxHeader; strings that are not valid UTF-8 on the protobuf wire (refused
+// loudly by the runtime, counted).
 package main
 
 import (
